@@ -121,15 +121,19 @@ theorem relAcc_stuck (r1 r2 : ResView) (acc : Res Bool) (p : Rel × Rel) (h : ac
   · exact absurd rfl h
   · rfl
 
+/-- The test of the attribute loop: true when the pair makes `Equal` answer false. -/
+def attrTest (r1 r2 : ResView) (p : Attr × Attr) : Bool :=
+  !deepEqual (r1.get p.1.name) (r2.get p.2.name) &&
+  !((r1.get p.1.name).isNilValue && (r2.get p.2.name).isNilValue) &&
+  !((r1.get p.1.name).isEmptyBytes && (r2.get p.2.name).isEmptyBytes)
+
 theorem equal_unfold (r1 r2 : ResView) :
     equal r1 r2 =
       if r1.typeName ≠ r2.typeName then .ok false
       else if (sortOn (fun a : Attr => a.name) r1.attrs.vals).length ≠
           (sortOn (fun a : Attr => a.name) r2.attrs.vals).length then .ok false
       else if ((sortOn (fun a : Attr => a.name) r1.attrs.vals).zip
-          (sortOn (fun a : Attr => a.name) r2.attrs.vals)).any (fun p =>
-            !deepEqual (r1.get p.1.name) (r2.get p.2.name) &&
-            !((r1.get p.1.name).isNilValue && (r2.get p.2.name).isNilValue)) then .ok false
+          (sortOn (fun a : Attr => a.name) r2.attrs.vals)).any (attrTest r1 r2) then .ok false
       else if (sortOn (fun r : Rel => r.fromName) r1.rels.vals).length ≠
           (sortOn (fun r : Rel => r.fromName) r2.rels.vals).length then .ok false
       else relFold r1 r2 ((sortOn (fun r : Rel => r.fromName) r1.rels.vals).zip
@@ -223,18 +227,15 @@ theorem equal_symm (a b : ResView) : equal a b = equal b a := by
   rw [equal_unfold, equal_unfold]
   apply ite_ne_symm; intro _
   apply ite_ne_symm; intro _
-  rw [zip_any_swap (fun p : Attr × Attr =>
-        !deepEqual (a.get p.1.name) (b.get p.2.name) &&
-        !((a.get p.1.name).isNilValue && (b.get p.2.name).isNilValue))
-      (fun p : Attr × Attr =>
-        !deepEqual (b.get p.1.name) (a.get p.2.name) &&
-        !((b.get p.1.name).isNilValue && (a.get p.2.name).isNilValue))
-      (fun x y => by
+  rw [zip_any_swap (attrTest a b) (attrTest b a) (fun x y => by
         show (!deepEqual (a.get x.name) (b.get y.name) &&
-          !((a.get x.name).isNilValue && (b.get y.name).isNilValue)) =
+          !((a.get x.name).isNilValue && (b.get y.name).isNilValue) &&
+          !((a.get x.name).isEmptyBytes && (b.get y.name).isEmptyBytes)) =
           (!deepEqual (b.get y.name) (a.get x.name) &&
-          !((b.get y.name).isNilValue && (a.get x.name).isNilValue))
-        rw [deepEqual_symm, Bool.and_comm (a.get x.name).isNilValue])]
+          !((b.get y.name).isNilValue && (a.get x.name).isNilValue) &&
+          !((b.get y.name).isEmptyBytes && (a.get x.name).isEmptyBytes))
+        rw [deepEqual_symm, Bool.and_comm (a.get x.name).isNilValue,
+          Bool.and_comm (a.get x.name).isEmptyBytes])]
   split
   · rfl
   · apply ite_ne_symm; intro _
@@ -298,6 +299,7 @@ theorem equal_refl {a : ResView} (h : a.ok) : equal a a = .ok true := by
     rw [List.any_eq_true] at hany
     obtain ⟨p, hp, hb⟩ := hany
     have := (mem_zip_self hp).1
+    unfold attrTest at hb
     rw [← this] at hb
     simp [deepEqual] at hb
   · rw [relFold_ok_iff]
